@@ -84,8 +84,9 @@ def run(ctx):
         reqs += [('api_jaccard', [A, B]), ('api_overlap', [A, B]), ('api_overlap_coefficient', [A, B])]
     outs = ctx.oracle.run_parallel(reqs)
 
-    def realise(tokens, cont, kind):
-        vals = [names[t] if (t is not None and kind == 'str') else (np.nan if t is None and kind == 'num' else t)
+    def realise(tokens, cont, kind, na=None):
+        # the missing-value marker of string-like data varies: None, float nan, pd.NA (what .tolist() of a nullable column holds)
+        vals = [names[t] if (t is not None and kind == 'str') else (np.nan if t is None and kind == 'num' else (na if t is None else t))
                 for t in tokens]
         if cont == 'list':
             return vals
@@ -109,8 +110,10 @@ def run(ctx):
         ctx.count('with_missing' if hasna else 'no_missing')
         # overlap / overlap_coefficient: missing values anywhere (a Python set cannot hold two NaN objects reliably,
         # so missing values are given to sets as None)
-        a = realise(A, ca, kind if ca != 'set' else 'str')
-        b = realise(B, cb, kind if cb != 'set' else 'str')
+        na = None if 'set' in (ca, cb) else [None, np.nan, pd.NA][(k // 7) % 3]
+        ctx.count('missing_marker=%s' % ('None' if na is None else ('nan' if na is not pd.NA else 'pd.NA')))
+        a = realise(A, ca, kind if ca != 'set' else 'str', na)
+        b = realise(B, cb, kind if cb != 'set' else 'str', na)
         if (ca == 'set' or cb == 'set') and kind == 'num':
             a = realise(A, ca, 'str')
             b = realise(B, cb, 'str')
@@ -129,8 +132,8 @@ def run(ctx):
             if impl[0] == 'ok' and impl2[0] == 'ok' and not (impl[1] == impl2[1] or (impl[1] != impl[1] and impl2[1] != impl2[1])):
                 ctx.violation('property', '%s not symmetric on %s, %s' % (name, A, B), dict(func=name, A=A, B=B), site='stats.' + name)
         # jaccard: missing values only inside Series
-        ja = realise(A, ca if (None not in A) else 'series', kind)
-        jb = realise(B, cb if (None not in B) else 'series', kind)
+        ja = realise(A, ca if (None not in A) else 'series', kind, na)
+        jb = realise(B, cb if (None not in B) else 'series', kind, na)
         impl = call_impl(prs.jaccard_index, ja, jb)
         ctx.case(nontrivial_key=('jaccard', tuple(A), tuple(B)) if nontriv else None)
         if mj is None:
